@@ -20,6 +20,9 @@ inductive E where
   | coth : E → E
   | cosh : E → E
   | sinh : E → E
+  | re : E → E          -- `x.real` (as a complex number with zero imaginary part)
+  | im : E → E          -- `x.imag`
+  | abs : E → E         -- `abs(x)`
 deriving Repr, Inhabited
 
 structure NumOps (α : Type) where
@@ -35,6 +38,9 @@ structure NumOps (α : Type) where
   tanh : α → α
   cosh : α → α
   sinh : α → α
+  re : α → α
+  im : α → α
+  abs : α → α
 
 def E.eval {α : Type} (o : NumOps α) (env : String → α) : E → α
   | .var s => env s
@@ -51,6 +57,9 @@ def E.eval {α : Type} (o : NumOps α) (env : String → α) : E → α
   | .coth a => o.inv (o.tanh (a.eval o env))      -- `coth(x) = 1 / tanh(x)` (circuit/functions.py)
   | .cosh a => o.cosh (a.eval o env)
   | .sinh a => o.sinh (a.eval o env)
+  | .re a => o.re (a.eval o env)
+  | .im a => o.im (a.eval o env)
+  | .abs a => o.abs (a.eval o env)
 
 /-! ## complex floats -/
 
@@ -87,7 +96,8 @@ def tanh (a : CF) : CF :=
   if a.re.abs > 20 then ⟨if a.re > 0 then 1 else -1, 0⟩ else mul (sinh a) (inv (cosh a))
 def ops : NumOps CF :=
   { ofNat := fun n => ⟨n.toFloat, 0⟩, I := ⟨0, 1⟩, pi := ⟨3.141592653589793, 0⟩, add := add, mul := mul, neg := neg,
-    inv := inv, pow := pow, sqrt := sqrt, tanh := tanh, cosh := cosh, sinh := sinh }
+    inv := inv, pow := pow, sqrt := sqrt, tanh := tanh, cosh := cosh, sinh := sinh,
+    re := fun z => ⟨z.re, 0⟩, im := fun z => ⟨z.im, 0⟩, abs := fun z => ⟨abs z, 0⟩ }
 end CF
 
 def E.evalF (env : String → CF) (e : E) : CF := e.eval CF.ops env
